@@ -165,7 +165,13 @@ func genC15(seed uint64, tier string) *Plan {
 			}
 			cur[ti] = nt
 			cp := nt
-			p.Ops = append(p.Ops, Op{K: "alter", Dt: PickOne(r, insDts), T: &cp})
+			aop := Op{K: "alter", Dt: PickOne(r, insDts), T: &cp}
+			if !p.Cfg.VirtualTime && r.Bool(0.25) {
+				// the definition changes while the process is down (schema
+				// file edited, then a restart): no flush under the new fields
+				aop.B = true
+			}
+			p.Ops = append(p.Ops, aop)
 			// remember every field the table ever had (for the duplicate check)
 			p.Tables[ti].Fields = append(p.Tables[ti].Fields[:len(p.Tables[ti].Fields):len(p.Tables[ti].Fields)], nt.Fields...)
 		}
@@ -211,8 +217,20 @@ func execC15(e *Env, p *Plan) error {
 				}
 			}
 			// a field-subset query must agree with the full dump
+			subs := []string{}
 			if len(mt.Def.Fields) > 1 {
-				sub := mt.Def.Fields[len(mt.Def.Fields)/2].Name
+				subs = append(subs, mt.Def.Fields[len(mt.Def.Fields)/2].Name)
+				newest := 0
+				for k := range mt.Def.Fields {
+					if mt.Def.Fields[k].Since > mt.Def.Fields[newest].Since {
+						newest = k
+					}
+				}
+				if mt.Def.Fields[newest].Name != subs[0] {
+					subs = append(subs, mt.Def.Fields[newest].Name)
+				}
+			}
+			for _, sub := range subs {
 				qa := n.Prepare("SELECT * FROM "+name, true)
 				qs := n.Prepare("SELECT "+sub+" FROM "+name, true)
 				ra, rs := qa.Run(QOpts{}), qs.Run(QOpts{})
@@ -223,9 +241,18 @@ func execC15(e *Env, p *Plan) error {
 						for _, r := range ra.Rows {
 							want[fmt.Sprintf("%s@%d", r.Key, r.TS)] = r.Vals[ia]
 						}
+						got := map[string]bool{}
 						for _, r := range rs.Rows {
+							got[fmt.Sprintf("%s@%d", r.Key, r.TS)] = true
 							if w, ok := want[fmt.Sprintf("%s@%d", r.Key, r.TS)]; ok && !floatClose(w, r.Vals[is]) {
 								return &Violation{"subset-mismatch", fmt.Sprintf("%s: field %s of %s is %v in SELECT * but %v in SELECT %s for row %s", stage, sub, name, w, r.Vals[is], sub, rowLine(rs.Fields, &r))}
+							}
+						}
+						// a row whose value for the field is not zero has data
+						// for it, so the query for that field alone reports it
+						for _, r := range ra.Rows {
+							if r.Vals[ia] != 0 && !math.IsNaN(r.Vals[ia]) && !got[fmt.Sprintf("%s@%d", r.Key, r.TS)] {
+								return &Violation{"subset-row-missing", fmt.Sprintf("%s: SELECT * FROM %s has row %s with %s = %v, but SELECT %s FROM %s does not return that row (%d of %d rows)", stage, name, rowLine(ra.Fields, &r), sub, r.Vals[ia], sub, name, len(rs.Rows), len(ra.Rows))}
 							}
 						}
 					}
@@ -278,9 +305,18 @@ func execC15(e *Env, p *Plan) error {
 					cur[k] = nt
 				}
 			}
-			schema := zenodb.Schema{nt.Name: tableOpts(&nt)}
-			if err := n.DB.ApplySchema(schema); err != nil {
-				return fmt.Errorf("ApplySchema: %v (%s)", err, nt.SQL())
+			if op.B {
+				nn, err := e.RestartClean(n, dbOpts(&p.Cfg), cur)
+				if err != nil {
+					return &Violation{"restart-failed", err.Error()}
+				}
+				n = nn
+				e.Count("probe.alter-by-restart")
+			} else {
+				schema := zenodb.Schema{nt.Name: tableOpts(&nt)}
+				if err := n.DB.ApplySchema(schema); err != nil {
+					return fmt.Errorf("ApplySchema: %v (%s)", err, nt.SQL())
+				}
 			}
 			e.Sleep(time.Millisecond)
 			e.Count("op.alter")
